@@ -47,11 +47,12 @@ type c10Scenario struct {
 	Base    int      `json:"base"` // microseconds (in the recorded trace)
 	F       int      `json:"f"`
 	Exp     bool     `json:"exp"`
+	Cdl     string   `json:"cdl"` // deadline of the client's own context: none | later | earlier
 }
 
 func c10ScenarioOf(m vx.M) c10Scenario {
 	s := c10Scenario{Retry: vx.Bool(m["retry"]), Max: vx.Int(m["max"]), Stream: vx.Bool(m["stream"]), CB: vx.Str(m["cb"]),
-		Tmo: vx.Bool(m["tmo"]), CancelB: vx.Int(m["cancelB"]), F: vx.Int(m["f"]), Exp: vx.Bool(m["exp"])}
+		Tmo: vx.Bool(m["tmo"]), CancelB: vx.Int(m["cancelB"]), F: vx.Int(m["f"]), Exp: vx.Bool(m["exp"]), Cdl: vx.Str(m["cdl"])}
 	for _, k := range vx.List(m["script"]) {
 		s.Script = append(s.Script, k.(string))
 	}
@@ -152,6 +153,20 @@ func c10Send(req *http.Request, _ *http.Client) (*http.Response, error) {
 			k = "hung"
 			err = fmt.Errorf("c10: gave up waiting for the time-out")
 		}
+	case "cdl":
+		// the client's own deadline (earlier than the pool time-out) expires during this call
+		if req.Context().Err() != nil {
+			r.mu.Lock()
+			r.taint("client deadline expired before the call it was meant for")
+			r.mu.Unlock()
+		}
+		select {
+		case <-req.Context().Done():
+			err = req.Context().Err()
+		case <-time.After(r.hangGuard):
+			k = "hung"
+			err = fmt.Errorf("c10: gave up waiting for the client's deadline")
+		}
 	case "cancel":
 		r.mu.Lock()
 		r.cancel()
@@ -164,7 +179,7 @@ func c10Send(req *http.Request, _ *http.Client) (*http.Response, error) {
 
 	r.mu.Lock()
 	r.bodies = append(r.bodies, body)
-	if k != "hang" && k != "cancel" && req.Context().Err() != nil {
+	if k != "hang" && k != "cancel" && k != "cdl" && req.Context().Err() != nil {
 		// a deadline or cancellation overtook a call that was meant to be quick: timing not kept
 		r.taint("context ended around a quick call")
 	}
@@ -296,6 +311,18 @@ func c10RunScenario(id string, sc c10Scenario, slow int) *c10Run {
 	cctx, cancel := stdcontext.WithCancel(stdcontext.Background())
 	defer cancel()
 	r.cancel = cancel
+	// the client's request may carry a deadline of its own (server-side request deadline, outer time
+	// limiter): far later than the pool time-out, or earlier (it expires in the call scripted "cdl")
+	switch sc.Cdl {
+	case "later":
+		var c2 stdcontext.CancelFunc
+		cctx, c2 = stdcontext.WithDeadline(cctx, time.Now().Add(time.Hour))
+		defer c2()
+	case "earlier":
+		var c2 stdcontext.CancelFunc
+		cctx, c2 = stdcontext.WithDeadline(cctx, time.Now().Add(time.Duration(600*slow)*time.Millisecond))
+		defer c2()
+	}
 	stdr, _ := http.NewRequestWithContext(cctx, http.MethodPost, "http://c10.example.com/p", strings.NewReader(c10Body))
 	stdr.Header.Set("X-C10-Id", id)
 	req, _ := httpprot.NewRequest(stdr)
